@@ -1,5 +1,5 @@
 (* C17 - verdicts do not depend on the order of SAN entries or of extensions.  Statements only (proofs: Kernels/Order.v). *)
-From ZL Require Import Base.Bytes Kernels.Order Kernels.Names Kernels.NamesFacts.
+From ZL Require Import Base.Bytes Kernels.Order Kernels.Names Kernels.NamesFacts Kernels.GeneralNames Kernels.GeneralNamesFacts.
 From Coq Require Import Sorting.Permutation ZArith List.
 Open Scope Z_scope.
 
@@ -37,6 +37,11 @@ Theorem c17_name_twins_agree : forall v,
   l_label_too_long v = l_rfc_label_too_long v /\ l_empty_label v = l_rfc_empty_label v.
 Proof. exact twins_agree. Qed.
 
+(* seventeen more general-name lints (presence of each name type, emptiness, criticality, the issuerAltName copies of
+   the community rules), modelled in full in Kernels/GeneralNames.v: no verdict depends on the order of the names *)
+Theorem c17_gn_lints_perm : forall v d', Permutation (gv_ian_dns v) d' -> all_gn_lints (with_ian_dns v d') = all_gn_lints v.
+Proof. exact gn_lints_perm. Qed.
+
 Print Assumptions c17_first_offender_perm.
 Print Assumptions c17_label_lints_perm.
 Print Assumptions c17_na_first_refuted.
@@ -51,3 +56,4 @@ Example c17_names_example :
   all_name_lints v = [3; 3; 3; 3; 6; 3; 3; 3; 4; 3; 3; 6; 3; 3] /\
   all_name_lints (with_dns v (rev (nv_dns v))) = all_name_lints v.
 Proof. split; vm_compute; reflexivity. Qed.
+Print Assumptions c17_gn_lints_perm.
